@@ -223,6 +223,10 @@ def _check_on(S, case, rebuild=True):
     for name, fn, first in (("bft", B.bft, bft), ("dft_recursive", D.dft_recursive, dfr), ("dft_iterative", D.dft_iterative, dfi)):
         again = S.idx(fn(S.uni, start, **S.kw()))
         require(again == first, "not-repeatable", f"{name}: {first} then {again}")
+        if S.d == 0 and S.u == 2 and S.ff is None:
+            # the documented defaults (FORWARD, LNK_UNKNOWN_ERROR, no filters) with every optional argument omitted
+            plain = S.idx(fn(S.uni, start))
+            require(plain == first, "defaults-mismatch", f"{name}(uni, start) with the optional arguments omitted lists {plain}; with the documented defaults spelled out {first}")
     if case.get("cache"):
         # with neighbor caching on: short-lived filter callables of different behaviour must not be confused
         for name, fn, first in (("bft", B.bft, bft), ("dft_recursive", D.dft_recursive, dfr), ("dft_iterative", D.dft_iterative, dfi)):
